@@ -61,7 +61,7 @@ for (steps, bound, conv, tier) in ((1, 'usize::MAX', False, 'quick'), (2, 'usize
                                    (2, '7', True, 'deep'), (3, '7', True, 'deep'), (2, '1 << 20', True, 'deep'), (3, '1 << 20', True, 'deep'), (2, 'usize::MAX', True, 'deep')):
     inst(P, 'c16_rl_steps%d_%s_%s' % (steps, {'usize::MAX': 'any', '7': 'tiny', '1 << 20': 'small'}[bound], 'convert' if conv else 'observe'),
          'c16::rl_builder(%d, %s, %s)' % (steps, bound, 'true' if conv else 'false'), tier=tier, unwind=10, unwindset=rluw(bound), stubs=RLSTUBS,
-         cap=1500, cap_thorough=5400, mem=30 if conv else 12, weight=50 * steps,
+         cap=1500, cap_thorough=5400, mem=30 if (conv or steps >= 3) else 12, weight=50 * steps,
          role='rl builder',
          desc='RLBuilder: %d arbitrary calls (try_set(start,len) / set_len(n), arguments %s), observables after each call%s' % (steps, 'over all usize' if bound == 'usize::MAX' else 'at most ' + bound, ', then RLVector::from and the run iterator against the accepted (merged) runs' if conv else ''),
          shape={'steps': steps, 'bound': bound, 'convert': conv})
